@@ -8,7 +8,7 @@
 #include "compiler.h"
 #include "nsync_atomic.h"
 NSYNC_CPP_START_
-#ifndef __CPROVER__       /* native replay of a sequential counterexample: single-threaded, sections are no-ops */
+#ifdef VF_REPLAY          /* native replay of a sequential counterexample: single-threaded, sections are no-ops */
 #define __CPROVER_atomic_begin() ((void) 0)
 #define __CPROVER_atomic_end() ((void) 0)
 #endif
